@@ -1186,7 +1186,7 @@ def run(ctx):
     try:
         first = state_cases(ctx, "early")
         fixed_cases(ctx)
-        n_tab = 1000 if quick else 900
+        n_tab = 1000 if quick else 650
         for i in range(n_tab):
             t, route, hist = gen_table(rng, quick)
             ctx.count("history=" + hist)
@@ -1246,9 +1246,9 @@ def run(ctx):
                 rcv, oth = del_receiver()
                 check_del(ctx, rcv, rng.choice([None, "default"]),
                           rng.choice(["sample", "observation", "whole", "bogus"]), (route, hist), oth)
-        run_parse_stream(ctx, 3000 if quick else 15000)
+        run_parse_stream(ctx, 3000 if quick else 10000)
         run_raw_stream(ctx, 800 if quick else 2500)
-        n_cli = 520 if quick else 1200
+        n_cli = 520 if quick else 900
         for i in range(n_cli):
             friendly = (i % 4 == 3)
             if friendly:
